@@ -58,3 +58,96 @@ def op_roundfreq(f):
 
 impl.OPS["uptime"] = op_uptime
 impl.OPS["roundfreq"] = op_roundfreq
+
+
+# ---------------------------------------------------------------------------------------------
+# MTU
+# ---------------------------------------------------------------------------------------------
+def mtu_db(values):
+    from .ops_wire import db_from_text
+    text = "[mtu]\n" + "".join(f"label = L{i}\nsig = {v}\n" for i, v in enumerate(values))
+    return db_from_text(text)
+
+
+def op_fpmtu(f):
+    p = P()
+    from .ops_wire import scapy_from
+    vals = impl.ints(f[3])
+    db = mtu_db(vals)
+    r = p["F"].fingerprint_mtu(scapy_from(f[1], bytes.fromhex(f[2])), options=p["Options"](database=db))
+    m = "none" if r.match is None else r.match.label.name[1:]
+    if r.match is not None and r.match.signature.mtu != r.packet_signature.mtu:
+        return "match-with-different-mtu"
+    return f"mtu={r.packet_signature.mtu} match={m}"
+
+
+def tok_to_opt(t):
+    k, rest = t[0], t[1:]
+    if k == "E":
+        return ("EOL", None)
+    if k == "N":
+        return ("NOP", None)
+    if k == "S":
+        return ("SAckOK", b"")
+    if k == "M":
+        return ("MSS", int(rest))
+    if k == "W":
+        return ("WScale", int(rest))
+    if k == "K":
+        return ("SAck", b"\x00" * int(rest))
+    if k == "T":
+        a, b = rest.split(".")
+        return ("Timestamp", (int(a), int(b)))
+    if k == "R":
+        a, b = rest.split(".")
+        return (int(a), b"\x00" * int(b))
+    raise ValueError(t)
+
+
+def opt_to_tok(o):
+    n, v = o
+    if n == "EOL":
+        return "E"
+    if n == "NOP":
+        return "N"
+    if n == "SAckOK":
+        return "S"
+    if n == "MSS":
+        return f"M{v}"
+    if n == "WScale":
+        return f"W{v}"
+    if n == "SAck":
+        return f"K{len(v)}"
+    if n == "Timestamp":
+        return f"T{v[0]}.{v[1]}"
+    if isinstance(n, int):
+        return f"R{n}.{len(v)}"
+    return f"?{n}"
+
+
+def op_impmtu(f):
+    p = P()
+    from scapy.layers.inet import IP, TCP
+    from scapy.layers.inet6 import IPv6
+    ver = f[1]
+    opts = [tok_to_opt(t) for t in f[2].split(",")] if f[2] else []
+    base = (IP(src="10.0.0.1", dst="10.0.0.2", ttl=61, id=77, tos=4) if ver == "4" else IPv6(src="::1", dst="::2", hlim=61, fl=5)) / TCP(
+        sport=1234, dport=80, flags="S", seq=99, window=1111, options=list(opts))
+    if len(bytes(base[TCP])) - 20 > 40 - (0 if any(o[0] == "MSS" for o in opts) else 4):
+        return "SKIP options-do-not-fit"
+    before = {k: v for k, v in base[TCP].fields.items() if k != "options"}
+    before_ip = dict(base.fields)
+    out = p["I"].impersonate_mtu(base, raw_signature=f[3])
+    same = out is base and {k: v for k, v in out[TCP].fields.items() if k != "options"} == before and dict(out.fields) == before_ip
+    toks = ",".join(opt_to_tok(o) for o in out[TCP].options)
+    db = mtu_db([1500])
+    try:
+        r = p["F"].fingerprint_mtu(out, options=p["Options"](database=db))
+        fp = str(r.packet_signature.mtu)
+    except p["E"].PacketError:
+        fp = "ERR_packet"
+    return f"opts={toks} same={1 if same else 0} fp={fp}"
+
+
+impl.OPS["fpmtu"] = op_fpmtu
+impl.OPS["impmtu"] = op_impmtu
